@@ -938,7 +938,7 @@ class ASTLateralViewClause(ASTBase):
 
     def source(self, sql_type: SQLType = SQLType.DEFAULT) -> str:
         """返回语法节点的 SQL 源码"""
-        outer_str = "OUT " if self.outer is True else ""
+        outer_str = "OUTER " if self.outer is True else ""
         return (f"LATERAL VIEW {outer_str}{self.function.source(sql_type)} "
                 f"{self.view_name} {self.alias.source(sql_type)}")
 
